@@ -599,6 +599,26 @@ def synthetic_dataset(seed, dest):
                     else: ex[j] = (ex[j][0], ex[j][1] + 4)
                     if not all(x[1] + 1 < y[0] for x, y in zip(ex, ex[1:])): continue
                 add("r%d_%s" % (n, tid), g["chr"], ex, g["strand"]); n += 1
+    # reads whose first / last exon is aligned inside the isoform's terminal intron, away from the isoform's terminal exon, with the same length and the
+    # inner splice site kept: the comparator types them terminal_exon_misalignment_left / _right (single read intron against the isoform's terminal intron,
+    # not surrounded by overlapping exons, other site within 2*delta, exon lengths differing by less than 2*delta); only --splice_correction_strategy all
+    # (correct_terminal_exons) may move their start / end
+    for g in w.genes:
+        for tid, ix in g["isoforms"].items():
+            iso = [g["pool"][i] for i in ix]
+            if len(iso) < 3: continue
+            for side in ("l", "r"):
+                ex = list(iso)
+                if side == "l":
+                    ln = iso[0][1] - iso[0][0] + 1; room = iso[1][0] - 3 - (iso[0][1] + 3) - ln
+                    if room < 10: continue
+                    s_ = iso[0][1] + 3 + rnd.randint(0, room); ex[0] = (s_, s_ + ln - 1 + rnd.choice([-2, 0, 0, 3]))
+                else:
+                    ln = iso[-1][1] - iso[-1][0] + 1; room = iso[-1][0] - 3 - (iso[-2][1] + 3) - ln
+                    if room < 10: continue
+                    s_ = iso[-2][1] + 3 + rnd.randint(0, room); ex[-1] = (s_ + rnd.choice([-2, 0, 0, 3]), s_ + ln - 1)
+                if not all(a <= b for a, b in ex) or not all(x[1] + 1 < y[0] for x, y in zip(ex, ex[1:])): continue
+                add("tmis%s%d_%s" % (side, n, tid), g["chr"], ex, g["strand"]); n += 1
     paths = w.write(dest)
     # short reads across the true junctions of the unannotated genes (and some annotated ones)
     names = list(w.chroms); hdr = {"HD": {"VN": "1.6", "SO": "unsorted"}, "SQ": [{"SN": c, "LN": len(w.chroms[c])} for c in names]}
@@ -632,7 +652,7 @@ def pipeline_level(ctx, quick):
         for seed in ([ctx.seed] if quick else [ctx.seed + k for k in range(6)]):
             syn = synthetic_dataset(seed, os.path.join(root, "syn%d" % seed))
             sbase = ["--reference", syn["fasta"], "--genedb", syn["gtf"], "--complete_genedb", "--bam", syn["bam"], "--data_type", "nanopore", "-t", "1", "-p", "OUT"]
-            for s_ in (["default_ont", "all", "none"] if quick else STRATEGIES):
+            for s_ in (["default_ont", "conservative_ont", "default_pacbio", "all", "none"] if quick else STRATEGIES):
                 jobs.append(dict(name="synthetic%d:%s" % (seed, s_), data=syn, outdir=os.path.join(root, "s%d_%s" % (seed, s_)), args=sbase + ["--splice_correction_strategy", s_], strategy=s_, illumina=False))
             for s_ in (["all"] if quick else ["all", "default_pacbio"]):
                 jobs.append(dict(name="synthetic%d+illumina:%s" % (seed, s_), data=syn, outdir=os.path.join(root, "si%d_%s" % (seed, s_)),
@@ -683,7 +703,7 @@ def pipeline_level(ctx, quick):
             for c_, L in lens.items():
                 by_chr[c_] = len(ctxs)
                 annot = sorted(set(i for t in tr.values() if t["chr"] == c_ for i in t["introns"]))
-                ctxs.append("(mkctx %s %s %s %s %s %s)" % (cflags(FL[job["strategy"]]), cz(job["traces"][0]["delta"] if job["traces"] and "delta" in job["traces"][0] else 6), cz(L), civs(annot),
+                ctxs.append("(mkctx %s %s %s %s %s %s)" % ("(strategy_flags St_%s)" % job["strategy"], cz(job["traces"][0]["delta"] if job["traces"] and "delta" in job["traces"][0] else 6), cz(L), civs(annot),
                                                             cbool(job["illumina"]), civs(short.get(c_, []) if job["illumina"] else [])))
             for rrow in bed:
                 g = groups.get(rrow["name"], []); k = taken[rrow["name"]]; taken[rrow["name"]] += 1
@@ -716,7 +736,9 @@ def pipeline_level(ctx, quick):
         ctx.rule("pipeline: bundled chr9 data with each of the 6 --splice_correction_strategy values, the data-type default, with --illumina_bam; a synthetic genome (gen_data.World + genes with micro "
                  "exons / micro introns, one unannotated gene with short-read junctions) with reads carrying the artifact recipes and indels / mismatches next to splice sites; every logged corrector "
                  "call goes through the model (and events_wf / regions_ordered must hold), every BED record through bed_ok (Appendix E) against TSV exons, TSV events, GTF, FASTA lengths and "
-                 "short-read introns, and must be the row of the logged corrected exons; non-trivial = the record differs from the input alignment")
+                 "short-read introns, and must be the row of the logged corrected exons; the strategy's flags in bed_ok are the MODEL's preset table (strategy_flags), not what the code under test computed; "
+                 "the synthetic reads include first / last exons misaligned inside the terminal intron (terminal_exon_misalignment events) under default_ont / conservative_ont / default_pacbio / all / none; "
+                 "non-trivial = the record differs from the input alignment")
     finally:
         shutil.rmtree(root, ignore_errors=True)
 
